@@ -18,8 +18,9 @@ type Case struct {
 }
 
 type gen struct {
-	g *sg.G
-	n int
+	g   *sg.G
+	n   int
+	vis []gref // groupings visible from the module being generated
 }
 
 func (x *gen) id(p string) string { x.n++; return fmt.Sprintf("%s%d", p, x.n) }
@@ -61,6 +62,34 @@ func (x *gen) leaf(name string) *sg.Node {
 }
 
 // body: nodes of a grouping / container; gs = groupings that may be used (references valid here)
+// gref: a grouping and the way it is referred to from the module being generated
+type gref struct {
+	ref string
+	gr  *sg.Grouping
+}
+
+// usesReach collects the local names of the groupings a body uses, transitively (grouping names are unique in a case).
+func usesReach(kids []*sg.Node, all map[string]*sg.Grouping, out map[string]bool) {
+	for _, k := range kids {
+		if k.Kind == "uses" {
+			name := k.Name
+			if i := strings.Index(name, ":"); i >= 0 {
+				name = name[i+1:]
+			}
+			if !out[name] {
+				out[name] = true
+				if g := all[name]; g != nil {
+					usesReach(g.Kids, all, out)
+				}
+			}
+			for _, a := range k.Augments {
+				usesReach(a.Kids, all, out)
+			}
+		}
+		usesReach(k.Kids, all, out)
+	}
+}
+
 func (x *gen) body(depth int, gs []string, usesAllowed bool) []*sg.Node {
 	g := x.g
 	n := 1 + g.Pick(3, "nbody")
@@ -233,7 +262,31 @@ func (x *gen) usesNode(ref string, gr *sg.Grouping, feats []string, allMods []*s
 		t := augTargets[g.Pick(len(augTargets), "atarget")]
 		a := &sg.Augment{Target: t.path, Kids: []*sg.Node{x.leaf(x.id("ua"))}}
 		a.Kids[0].Mandatory = ""
-		if g.Chance(1, 3, "augwhen") {
+		// (not together with a when on the augment: the nodes of the inner grouping may have a when of their own, and a
+		// node with two inherited when statements has no single-module spelling)
+		if len(x.vis) > 0 && g.Chance(1, 3, "auguses") {
+			// a uses inside the augment of the uses: another grouping that neither is reached from the outer one
+			// (its nodes would appear twice) nor reaches it (that would be a cycle)
+			all := map[string]*sg.Grouping{}
+			for _, v := range x.vis {
+				all[v.gr.Name] = v.gr
+			}
+			fromOuter := map[string]bool{gr.Name: true}
+			usesReach(gr.Kids, all, fromOuter)
+			v := x.vis[g.Pick(len(x.vis), "innergr")]
+			fromInner := map[string]bool{v.gr.Name: true}
+			usesReach(v.gr.Kids, all, fromInner)
+			ok := !fromOuter[v.gr.Name] && !fromInner[gr.Name]
+			for n := range fromInner {
+				if fromOuter[n] {
+					ok = false
+				}
+			}
+			if ok {
+				a.Kids = append(a.Kids, &sg.Node{Kind: "uses", Name: v.ref})
+			}
+		}
+		if len(a.Kids) == 1 && g.Chance(1, 3, "augwhen") {
 			a.When = "../k = 'aug'"
 			a.Kids[0].When = ""
 		}
@@ -267,10 +320,6 @@ func genCase(t *rapid.T) Case {
 	g := x.g
 	nm := 2 + g.Pick(2, "nmods")
 	var mods []*sg.Mod
-	type gref struct {
-		ref string
-		gr  *sg.Grouping
-	}
 	var visible [][]gref // per module: groupings usable from that module, with the reference string
 	for i := 0; i < nm; i++ {
 		m := &sg.Mod{Name: fmt.Sprintf("m%d", i), Prefix: fmt.Sprintf("m%d", i)}
@@ -310,6 +359,7 @@ func genCase(t *rapid.T) Case {
 			// always the explicit own prefix, so that the reference means the same in every module
 			vis = append(vis, gref{m.Prefix + ":" + gr.Name, gr})
 		}
+		x.vis = vis
 		nt := 1 + g.Pick(2, "ntop")
 		for k := 0; k < nt; k++ {
 			top := &sg.Node{Kind: "container", Name: fmt.Sprintf("m%d-top%d", i, k)}
